@@ -39,6 +39,7 @@ type World struct {
 	Notes        map[string]bool // assumptions / abstractions encountered (for evidence)
 	targets      []*ssa.Function
 	constGlobals map[*ssa.Global]ssa.Value // package-level vars only assigned once, in init, a function value or constant
+	nonNilGlobals map[*ssa.Global]bool    // sentinel values: assigned once, in init, the result of errors.New / fmt.Errorf / a composite
 }
 
 type fieldInfo struct {
@@ -399,6 +400,8 @@ func (w *World) SrcLine(pos token.Pos) (string, string) {
 func (w *World) ConstGlobal(g *ssa.Global) ssa.Value {
 	if w.constGlobals == nil {
 		w.constGlobals = map[*ssa.Global]ssa.Value{}
+		w.nonNilGlobals = map[*ssa.Global]bool{}
+		nonNil := map[*ssa.Global]bool{}
 		stores := map[*ssa.Global]int{}
 		vals := map[*ssa.Global]ssa.Value{}
 		for fn := range ssautil.AllFunctions(w.Prog) {
@@ -418,6 +421,17 @@ func (w *World) ConstGlobal(g *ssa.Global) ssa.Value {
 						if ct, ok := v.(*ssa.ChangeType); ok {
 							v = ct.X
 						}
+						if mi, ok := v.(*ssa.MakeInterface); ok {
+							v = mi.X
+							if _, isAlloc := v.(*ssa.Alloc); isAlloc {
+								nonNil[gg] = true
+							}
+						}
+						if call, ok := v.(*ssa.Call); ok {
+							if sc := call.Call.StaticCallee(); sc != nil && (sc.String() == "errors.New" || sc.String() == "fmt.Errorf") {
+								nonNil[gg] = true
+							}
+						}
 						switch x := v.(type) {
 						case *ssa.Function, *ssa.Const:
 							vals[gg] = x
@@ -434,7 +448,16 @@ func (w *World) ConstGlobal(g *ssa.Global) ssa.Value {
 			if n == 1 && vals[g] != nil {
 				w.constGlobals[g] = vals[g]
 			}
+			if n == 1 && nonNil[g] {
+				w.nonNilGlobals[g] = true
+			}
 		}
 	}
 	return w.constGlobals[g]
+}
+
+// NonNilGlobal: a sentinel error variable (set once, at initialisation, to a fresh error value).
+func (w *World) NonNilGlobal(g *ssa.Global) bool {
+	w.ConstGlobal(g)
+	return w.nonNilGlobals[g]
 }
